@@ -106,11 +106,12 @@ class CopyConfig(RPC):
         node.append(util.datastore_or_url("target", target, self._assert))
 
         try:
-            # datastore name or URL
-            node.append(util.datastore_or_url("source", source, self._assert))
-        except Exception:
             # `source` with `config` element containing the configuration subtree to copy
-            node.append(validated_element(source, ("source", qualify("source"))))
+            source_node = validated_element(source, ("source", qualify("source")))
+        except Exception:
+            # datastore name or URL (a missing :url capability must reach the caller)
+            source_node = util.datastore_or_url("source", source, self._assert)
+        node.append(source_node)
 
         return self._request(node)
 
